@@ -72,6 +72,8 @@ def runCase (j : Json) : Except String Json := do
     ("now", jInt s.now),
     ("decisions_left", jNat s.decisions.length),
     ("tape_left", jNat s.tape.length),
+    ("queue", Json.arr (s.queue.map (fun e => Json.arr #[jInt e.ev.time, jNat e.ev.etype, Json.str (e.ev.task.getD "")]))),
+    ("ngraphs", jNat s.graphs.size),
     ("final", Json.arr (s.graphs.map (fun g => Json.arr (g.tasks.map (fun t => Json.str t.state.name)))))]
 
 def handle (j : Json) : Json := guardE (runCase j)
